@@ -177,9 +177,9 @@ func NewSession(p *kernel.Plan, mode kernel.Mode, maxSteps int) *Session {
 			if pipe != nil {
 				pipe.RErrAt, pipe.RErrN, pipe.RErr, pipe.RErrStick = int(f.At), int(f.Arg), ErrInjRead, true
 			}
-		case "werr":
+		case "werr", "werr1":
 			if pipe != nil {
-				pipe.WErrAt, pipe.WErrN, pipe.WErr, pipe.WErrStick = int(f.At), int(f.Arg), ErrInjWrite, true
+				pipe.WErrAt, pipe.WErrN, pipe.WErr, pipe.WErrStick = int(f.At), int(f.Arg), ErrInjWrite, f.K == "werr"
 			}
 		case "short":
 			if pipe != nil {
